@@ -245,8 +245,16 @@ func (w *World) beginCall(op, target string) *Call {
 	return c
 }
 
+func perTarget(op string) bool {
+	switch op {
+	case OpDescribeInst, OpGet, OpPut, OpPatch, OpDelete, OpTerminateASG:
+		return true
+	}
+	return false
+}
+
 func (w *World) faultStream(c *Call) *Stream {
-	if c.Op == OpDescribeInst {
+	if perTarget(c.Op) {
 		return w.ch.S("f/" + c.Group + "/" + c.Op + "/" + c.Target)
 	}
 	return w.ch.S("f/" + c.Group + "/" + c.Op)
@@ -271,8 +279,17 @@ var faultsByOp = map[string][]string{
 // are raised here (crash-before) or armed for endCall (crash-after).
 func (w *World) drawFault(c *Call) string {
 	key := fmt.Sprintf("%s/%s", c.Group, c.Op)
-	if c.Op == OpDescribeInst {
-		key += "/" + c.Target // issued in map order by the code under test: occurrence and forced faults are per target
+	plainKey := ""
+	if perTarget(c.Op) {
+		// Calls that name one node or instance draw from a stream of that target, and their occurrence is
+		// counted per target: which of them is hit then does not depend on the order in which the code under
+		// test works through a set (it may come out of a Go map). Forced faults of the directed cases may
+		// still name "the k-th call of this kind".
+		if c.Op != OpDescribeInst {
+			w.occ[key]++
+			plainKey = fmt.Sprintf("%s#%d", key, w.occ[key])
+		}
+		key += "/" + c.Target
 	}
 	w.occ[key]++
 	occ := w.occ[key]
@@ -296,6 +313,8 @@ func (w *World) drawFault(c *Call) string {
 	}
 	fault := FNone
 	if forced, ok := w.cfg.ForceFault[fmt.Sprintf("%s#%d", key, occ)]; ok {
+		fault = forced
+	} else if forced, ok := w.cfg.ForceFault[plainKey]; ok && plainKey != "" {
 		fault = forced
 	} else if hit {
 		kinds := faultsByOp[c.Op]
